@@ -233,6 +233,15 @@ func drive(args []string) int {
 	if *tier == "thorough" {
 		jobs = pl.Thorough
 	}
+	if only := os.Getenv("VERIF_ONLY_FLAVOUR"); only != "" { // debugging / self-test aid
+		var f []job
+		for _, j := range jobs {
+			if j.Flavour == only {
+				f = append(f, j)
+			}
+		}
+		jobs = f
+	}
 	start := time.Now()
 	os.MkdirAll(binDir(), 0o755)
 	workdir := filepath.Join(verifRoot, ".work", fmt.Sprintf("%s-%d", *prop, os.Getpid()))
@@ -252,7 +261,7 @@ func drive(args []string) int {
 	bins := map[string]string{}
 	var optionalMissing []string
 	for _, j := range jobs {
-		if _, ok := bins[j.Flavour]; ok {
+		if _, ok := bins[j.Flavour]; ok || j.Flavour == "fuzz" {
 			continue
 		}
 		b, err := buildFlavour(j.Flavour)
@@ -294,6 +303,15 @@ func drive(args []string) int {
 		}(r)
 	}
 	wg.Wait()
+	// native fuzzing (thorough tier of C03/C08/C10) runs after the deterministic workers, with all cores
+	var fuzzViols []drv.Violation
+	var fuzzExecs, fuzzNew int64 = -1, 0
+	var fuzzNote string
+	for _, j := range jobs {
+		if j.Flavour == "fuzz" {
+			fuzzExecs, fuzzNew, fuzzViols, fuzzNote = runFuzzJob(*prop, *seed, *tier, int64(j.Shards))
+		}
+	}
 
 	// 3. merge
 	known := loadKnown()
@@ -369,6 +387,15 @@ func drive(args []string) int {
 		viols = append(viols, r.res.Violations...)
 		if r.exitErr != nil {
 			inconclusive = append(inconclusive, fmt.Sprintf("worker %s/%d exited with %v after writing its result", fl, r.shard, r.exitErr))
+		}
+	}
+	viols = append(viols, fuzzViols...)
+	if fuzzExecs >= 0 {
+		merged.obs["native fuzz executions"] = fuzzExecs
+		merged.obs["native fuzz new-coverage inputs"] = fuzzNew
+		merged.evals += fuzzExecs
+		if fuzzNote != "" {
+			inconclusive = append(inconclusive, fuzzNote)
 		}
 	}
 	// race logs
@@ -488,6 +515,105 @@ func drive(args []string) int {
 		return 2
 	}
 	return 0
+}
+
+var reFuzzExecs = regexp.MustCompile(`execs: (\d+) .*new interesting: (\d+)`)
+var reFuzzFail = regexp.MustCompile(`Failing input written to (testdata/fuzz/\S+)`)
+
+// runFuzzJob runs `go test -fuzz` on the property's native fuzz target for millions x 10^6 executions.
+func runFuzzJob(prop string, seed int64, tier string, millions int64) (execs, interesting int64, viols []drv.Violation, note string) {
+	mf, err := writeModfile("plain")
+	if err != nil {
+		return 0, 0, nil, "fuzz modfile: " + err.Error()
+	}
+	ov, err := writeOverlay()
+	if err != nil {
+		return 0, 0, nil, "fuzz overlay: " + err.Error()
+	}
+	target := "Fuzz" + prop
+	args := []string{"test", "-modfile=" + mf, "-overlay=" + ov, "-run=^$", "-fuzz=^" + target + "$", fmt.Sprintf("-fuzztime=%dx", millions*1000000), "-parallel=16", "./fuzz"}
+	cmd := exec.Command("go", args...)
+	cmd.Dir = harnessDir()
+	cmd.Env = append(goEnv(), fmt.Sprintf("VERIF_SEED=%d", seed))
+	var buf bytes.Buffer
+	cmd.Stdout, cmd.Stderr = &buf, &buf
+	runErr := cmd.Run()
+	out := buf.String()
+	for _, m := range reFuzzExecs.FindAllStringSubmatch(out, -1) {
+		execs, _ = strconv.ParseInt(m[1], 10, 64)
+		interesting, _ = strconv.ParseInt(m[2], 10, 64)
+	}
+	if runErr == nil {
+		return
+	}
+	m := reFuzzFail.FindStringSubmatch(out)
+	var raw []byte
+	if m != nil {
+		crasher := filepath.Join(harnessDir(), "fuzz", m[1])
+		raw, _ = os.ReadFile(crasher)
+		os.Remove(crasher) // never leave a crasher in the tree: the next run must start clean
+		os.Remove(filepath.Dir(crasher))
+		os.Remove(filepath.Dir(filepath.Dir(crasher)))
+		os.Remove(filepath.Dir(filepath.Dir(filepath.Dir(crasher))))
+	} else if !strings.Contains(out, "VIOLATION {") {
+		tail := out
+		if len(tail) > 1500 {
+			tail = tail[len(tail)-1500:]
+		}
+		return execs, interesting, nil, "native fuzzing ended abnormally without a failing input: " + tail
+	}
+	inHex, ty := parseCorpusFile(string(raw))
+	v := drv.Violation{Property: prop, Check: "native-fuzz", Stage: "native-fuzz", Index: 0, Seed: seed, Tier: tier, Flavour: "plain",
+		Signature: map[string]interface{}{"check": "native-fuzz"}, Detail: map[string]interface{}{"input_hex": inHex, "type": ty, "corpus_file": string(raw)}}
+	if i := strings.Index(out, "VIOLATION {"); i >= 0 {
+		line := out[i+len("VIOLATION "):]
+		if j := strings.Index(line, "\n"); j >= 0 {
+			line = line[:j]
+		}
+		var inner drv.Violation
+		if json.Unmarshal([]byte(line), &inner) == nil {
+			v.Check = inner.Check
+			v.Signature = inner.Signature
+			v.Signature["found_by"] = "native-fuzz"
+			v.Detail["monitor"] = inner.Detail
+			if cse, ok := inner.Detail["case"].(map[string]interface{}); ok && len(raw) == 0 {
+				// the failing input was a seed-corpus entry (no crasher file is written for those)
+				v.Detail["input_hex"] = cse["input_hex"]
+				if t, ok := cse["type"].(float64); ok {
+					v.Detail["type"] = int(t)
+				}
+			}
+		}
+	} else {
+		tail := out
+		if len(tail) > 3000 {
+			tail = tail[len(tail)-3000:]
+		}
+		v.Detail["output"] = tail
+	}
+	return execs, interesting, []drv.Violation{v}, ""
+}
+
+// parseCorpusFile extracts the []byte and byte arguments of a "go test fuzz v1" corpus file.
+func parseCorpusFile(s string) (inHex string, ty int) {
+	for _, l := range strings.Split(s, "\n") {
+		l = strings.TrimSpace(l)
+		if strings.HasPrefix(l, "[]byte(") && strings.HasSuffix(l, ")") {
+			if u, err := strconv.Unquote(l[len("[]byte(") : len(l)-1]); err == nil {
+				inHex = hex.EncodeToString([]byte(u))
+			}
+		}
+		if strings.HasPrefix(l, "byte(") && strings.HasSuffix(l, ")") {
+			if u, err := strconv.Unquote(l[len("byte(") : len(l)-1]); err == nil && len(u) > 0 {
+				r := []rune(u)
+				ty = int(r[0])
+				if len(u) == 1 {
+					ty = int(u[0])
+				}
+			}
+		}
+	}
+	return
 }
 
 func parseCur(s string) (string, int64) {
@@ -733,6 +859,9 @@ func replay(args []string) int {
 	}
 	cmd := exec.Command(bin, "worker", "-prop", v.Property, "-tier", v.Tier, "-seed", fmt.Sprint(v.Seed), "-flavour", v.Flavour,
 		"-only-stage", v.Stage, "-only-index", fmt.Sprint(v.Index), "-v")
+	if v.Stage == "native-fuzz" {
+		cmd.Env = append(os.Environ(), fmt.Sprintf("VERIF_FUZZ_HEX=%v", v.Detail["input_hex"]), fmt.Sprintf("VERIF_FUZZ_TYPE=%v", v.Detail["type"]))
+	}
 	var out bytes.Buffer
 	cmd.Stdout = &out
 	cmd.Stderr = os.Stderr
